@@ -137,7 +137,7 @@ func (p *Prog) unmarshalRoots() []*ssa.Function {
 var ruleBCE = &Rule{
 	Name:    "R-BCE",
 	NeedSSA: true,
-	Doc:     "no index or slice operation the compiler's prove pass cannot show in-bounds in any module function reachable from the UnmarshalJSON methods of the five datetime types",
+	Doc:     "no index or slice operation the compiler's prove pass cannot show in-bounds in any module function reachable from the UnmarshalJSON methods of the five datetime types (one structural argument is accepted besides: s[len(s)-k] under len(s) >= k where every call site passes a positive constant k)",
 	Run: func(p *Prog) *RuleOut {
 		out := newOut("R-BCE")
 		roots := p.unmarshalRoots()
@@ -187,6 +187,25 @@ var ruleBCE = &Rule{
 			rel, _ := filepath.Rel(p.RepoDir, f.File)
 			site := fmt.Sprintf("%s:%d", rel, f.Line)
 			if sf != nil && reach.Set[sf] {
+				// a structural argument of our own: s[len(s)-k] under len(s) >= k, k positive at every call site
+				proved := ""
+				for _, b := range sf.Blocks {
+					for _, ins := range b.Instrs {
+						ia, ok := ins.(*ssa.IndexAddr)
+						if !ok {
+							continue
+						}
+						if pos := p.Fset.Position(ia.Pos()); pos.Filename == f.File && pos.Line == f.Line && pos.Column == f.Col {
+							if why, good := p.lenMinusPositive(ia); good {
+								proved = why
+							}
+						}
+					}
+				}
+				if proved != "" {
+					out.ok(key, site, name, "unproven by the compiler, discharged structurally: "+proved)
+					continue
+				}
 				out.viol(key, site, name, "the compiler cannot prove this index/slice in bounds and the function is reachable from UnmarshalJSON: hostile JSON can panic", reach.path(p, sf)...)
 			} else {
 				out.ok(key, site, name, "unproven, but not reachable from any UnmarshalJSON")
